@@ -141,6 +141,20 @@ CLAIMED = {
         "dynamic symbolic execution of the real Python code (vx) + z3 LIA (symbolic crash point), concrete replay for dask",
         "DESIGN.md section 4 C09",
     ),
+    "C05": (
+        "model_checking",
+        "ParameterValues / ProductMode / SequentialMode / CustomMode executed on opaque symbolic list elements and table cells carried "
+        "by real pandas / xarray containers, symbolic enabled flags: 1..3 (4) parameters with lists of 1..3 values (ascending and "
+        "descending), scalar and vector placeholders, 1..3 table rows. Oracles from the statement: lexicographic Cartesian product with "
+        "mixed-radix indices, concatenation with the processor's configured values for the other keys, one run per row with columns "
+        "consumed left to right; run_index = position; disabled parameters ignored; the parameter array of the parallel path denotes the "
+        "same runs (each cell at the coordinates carrying its own values). Labels of the merged result: every path witness is replayed "
+        "through the real run_mode and selected by label.",
+        "Lists are assumed strictly monotone in symbolic runs (pandas sorts index levels); coordinate attachment and xr.merge are "
+        "checked on solver-chosen witnesses only; numpy.* range strings and dask execution outside.",
+        "dynamic symbolic execution of the real Python code (vx) + z3 (equalities over opaque terms), concrete label replay per path",
+        "DESIGN.md section 4 C05",
+    ),
 }
 
 NOT_APPLICABLE = {
